@@ -14,7 +14,11 @@ pub mod c11;
 pub mod c12;
 pub mod texts;
 pub mod explore;
+pub mod c05;
+pub mod c07;
 pub mod c08;
+pub mod c09;
+pub mod c10;
 pub mod c16;
 pub mod common;
 
@@ -355,6 +359,20 @@ pub fn workload(name: &str, tier: &str) -> Option<Box<dyn Workload>> {
         "c04load" => Some(Box::new(c04::LoadCrash {
             n: if quick { 30_000 } else { 1_000_000 },
         })),
+        "c05" => Some(Box::new(c05::Rewrites {
+            n: if quick { 3000 } else { 60_000 },
+        })),
+        "c07unify" => Some(Box::new(c07::Unify::new(quick))),
+        "c07inv" => Some(Box::new(c07::Invariance {
+            n: if quick { 4000 } else { 100_000 },
+        })),
+        "c07agree" => Some(Box::new(c07::Agreement {
+            n: if quick { 3200 } else { 100_000 },
+        })),
+        "c09" => Some(Box::new(c09::Recursion {
+            n: if quick { 4000 } else { 100_000 },
+        })),
+        "c10" => Some(Box::new(c10::Loads::new(quick))),
         "c11" => Some(Box::new(c11::Texts {
             plan: texts::TextPlan::new(quick),
         })),
@@ -383,7 +401,11 @@ pub fn run_check(ctx: &Ctx) -> i32 {
         "C02" => c02::run(ctx),
         "C03" => c03::run(ctx),
         "C04" => c04::run(ctx),
+        "C05" => c05::run(ctx),
+        "C07" => c07::run(ctx),
         "C08" => c08::run(ctx),
+        "C09" => c09::run(ctx),
+        "C10" => c10::run(ctx),
         "C11" => c11::run(ctx),
         "C12" => c12::run(ctx),
         other => {
